@@ -626,6 +626,72 @@ pub fn run(ctx: &Ctx) -> PropResult {
         judge_from_datetime(rec, i, gen_offset(rng), idx % 2 == 1);
     }));
     wls.push(Workload::cases("api_walks", ctx.count(40_000, 1_500_000), |rec, _, rng| walk(rec, rng)));
+    // Times reached through parse with several fraction / clock fields in one pattern, late in the day: every field is
+    // in range, their sum need not be — an Ok result must still be a time of day
+    wls.push(Workload::cases("parse_field_pile_ups_late_in_the_day", ctx.count(6_000, 200_000), |rec, _, rng| {
+        rec.eval();
+        rec.api("Time::parse");
+        let fr: [(&str, &str); 6] = [("n", "9"), ("nn", "99"), ("nnn", "999"), ("nnnn", "999999"), ("nnnnn", "999999999"), ("nnn", "500")];
+        let clock = *rng.pick(&[("HH:mm:ss", "23:59:59"), ("HH:mm:ss", "23:59:58"), ("kk:mm:ss", "23:59:59"), ("hh:mm:ss a", "11:59:59 PM"), ("HH:mm", "23:59"), ("ss", "59"), ("HH", "23")]);
+        let mut pattern = clock.0.to_string();
+        let mut input = clock.1.to_string();
+        for _ in 0..1 + rng.below(5) {
+            let (p, i) = *rng.pick(&fr);
+            pattern.push(' ');
+            input.push(' ');
+            pattern.push_str(p);
+            input.push_str(i);
+        }
+        rec.bin("parse/pile-up-late-in-the-day");
+        rec.nontrivial(hash_str(&input) ^ hash_str(&pattern).rotate_left(7));
+        match trap(|| Time::parse(&input, &pattern).map(|t| (t.as_nanos(), t.as_hms()))) {
+            Err(p) => rec.violation(format!("C08|parse|Time::parse|panic|{},{}", p.class, p.site()), || json!({"input": input, "pattern": pattern, "panic": p.to_json()})),
+            Ok(Ok((n, hms))) if n >= DN || hms.0 > 23 => rec.violation("C08|parse|Time::parse|value-outside-the-day".to_string(), || json!({"input": input, "pattern": pattern, "as_nanos": n, "as_hms": format!("{:?}", hms)})),
+            _ => {}
+        }
+    }));
+    // Times carrying an Offset::Fixed of a day or more (any i32): setters, clears, as_offset and the getters still
+    // have to produce / show a time of day
+    wls.push(Workload::cases("any_offset_setters_clears_getters", ctx.count(20_000, 600_000), |rec, _, rng| {
+        rec.eval();
+        rec.api("Time set_*/clear_*/getters under any Offset::Fixed");
+        let n = gen_time_nanos(rng);
+        let off = match rng.below(3) {
+            0 => *rng.pick(&[86_400i32, -86_400, 86_401, -86_401, 172_800, -172_800, 200_000, -200_000, i32::MAX, i32::MIN, i32::MIN + 1]),
+            1 => rng.next() as i32,
+            _ => rng.range_i64(-1_000_000, 1_000_000) as i32,
+        };
+        rec.bin("time/any-offset-set-clear-get");
+        rec.nontrivial(hash_i128s(&[n as i128, off as i128, 0x0808]));
+        let f = rng.below(6) as usize;
+        let v: u32 = match f { 0 => rng.below(24) as u32, 1 | 2 => rng.below(60) as u32, 3 => rng.below(1_000) as u32, 4 => rng.below(1_000_000) as u32, _ => rng.below(1_000_000_000) as u32 };
+        let u = rng.below(6) as usize;
+        let o2 = rng.next() as i32;
+        let r = trap(|| {
+            let t = Time::from_nanos(n).unwrap().set_offset(Offset::Fixed(off));
+            let mut seen: Vec<(String, u64, (u32, u32, u32, u32))> = vec![];
+            let mut note = |what: String, x: &Time| seen.push((what, x.as_nanos(), (x.hour(), x.minute(), x.second(), x.nano())));
+            note("the value itself".into(), &t);
+            if let Ok(x) = apply_time_setter(&t, f, v) {
+                note(format!("{}({})", SETTERS[f], v), &x);
+            }
+            note(CLEARS[u].to_string(), &apply_time_clear(&t, u));
+            note(format!("as_offset({})", o2), &Time::from_nanos(n).unwrap().as_offset(Offset::Fixed(o2)));
+            seen
+        });
+        let wit = |obs: Value| json!({"time_as_nanos": n, "offset": off, "observed": obs});
+        match r {
+            Err(p) => rec.violation(format!("C08|any-offset|set/clear/getters|panic|{},{}", p.class, p.site()), || wit(p.to_json())),
+            Ok(seen) => {
+                for (what, an, g) in seen {
+                    if an >= DN || g.0 > 23 || g.1 > 59 || g.2 > 59 || g.3 > 999_999_999 {
+                        rec.violation("C08|any-offset|set/clear/getters|not-a-time-of-day".to_string(), || wit(json!({"after": what, "as_nanos": an, "(hour,minute,second,nano)": format!("{:?}", g)})));
+                        break;
+                    }
+                }
+            }
+        }
+    }));
     wls.push(Workload::cases("offset_local_twins_time", ctx.count(4_000, 30_000), |rec, _, rng| super::localzone::twin_time_case(rec, rng, "C08", false)));
     let out = run_workloads(ctx, wls);
     let mut meta = PropMeta::default();
@@ -636,6 +702,7 @@ pub fn run(ctx: &Ctx) -> PropResult {
     );
     meta.exhaustive = false;
     meta.required_bins = vec![
+        "parse/pile-up-late-in-the-day", "time/any-offset-set-clear-get",
         "local-twin/time-judged",
         "method/no-wrap", "method/wraps-once", "method/wraps-many", "count/64-bit-wrap-threshold", "count/u32::MAX-0..2",
         "binop/below-midnight", "binop/past-midnight", "binop/inside-day",
